@@ -13,7 +13,8 @@ RULE = ("rows of 1-5 selections over values of all JSON types and absent, string
         "csv, and text with generated separators, prefix/postfix, keywords, single-character escape sequences, --headers and "
         "--missing-value-keyword; distinct_nontrivial = distinct (mode, value class, special-character class) triples read back")
 
-SPECIALS = ['"', ",", "\r", "\n", "\t", "é", "日", '""', ", ", '",', "\r\n", " ", "a", "", "null", "True", "1", "\\", "'", ";", "|"]
+SPECIALS = ['"', ",", "\r", "\n", "\t", "é", "日", '""', ", ", '",', "\r\n", " ", "a", "", "null", "True", "1", "\\", "'", ";", "|",
+            "\U0001F603", "\U00010000", "\U0010FFFF", "\x7f", "\x01", "\x1f", "\u2028", "\uffff", "\x80", "/"]
 
 
 def gen_string(rng, text_mode=False):
